@@ -303,6 +303,7 @@ PROPS = {
                    'ellipsis and one contiguous slice of the line; pointer iff current, marker iff selected; the k-th result is on '
                    'the row the layout prescribes and header rows are disjoint from list rows; the prompt line starts with prompt + '
                    'query and the info line carries the counters; a hidden input section takes no rows (the list gets them); '
+                   '--header-first reorders the fixed rows without moving any list row; '
                    'repainting a row over its previous contents (erasing only as far '
                    'as the previous text reached) equals a repaint from scratch, for every history of repaints. The screen of the '
                    'real binary is compared cell by cell with a from-scratch rendering of the model state after every step.',
